@@ -219,3 +219,95 @@ Proof.
   - constructor; [|constructor]. split; [reflexivity|]. split; [reflexivity|discriminate].
   - constructor; [|constructor]. split; [apply split_lines_wf|discriminate].
 Qed.
+
+(* from scratch with the premises on absent entries and on distinct keys discharged (AbsentInv.v, NameSafety.v): what
+   is left are the size limits along the first run, the line structure of its final entries (the finding
+   no-newline-midfile), names that do not run through each other (the finding dir-and-file) and a tree in which
+   nothing is both a file and a directory *)
+From RQ Require Import UndoChain AbsentInv.
+Theorem C09_first_then_second_from_scratch :
+  forall K dm cfg db fs first st n rejs fs1 cl,
+    disk_ok fs -> c_dry_run cfg = false -> fs_fault fs = None -> no_file_dir fs ->
+    apply_series cfg db {| a_applied := []; a_files := [] |} 0 first fs = (fs, ROk (st, n, rejs)) ->
+    series_sizes cfg db fs {| a_applied := []; a_files := [] |} 0 first ->
+    save_all dm (a_files st) [] fs = (fs1, ROk cl) ->
+    Forall (fun e => kpath e <> []) (a_files st) ->
+    keys_indep (a_files st) -> Forall lines_ok (a_files st) ->
+    (forall k, okkey K k -> ov_get k (a_files st) = None -> Forall (fun e => indep (normalize k) (kpath e)) (a_files st)) ->
+    forall rest, series_in K db rest ->
+    let fs2 := fst (clean_all cl fs1) in
+    fst (apply_series cfg db st n rest fs) = fs /\
+    fst (apply_series cfg db {| a_applied := []; a_files := [] |} n rest fs2) = fs2 /\
+    ressim (sersim K dm fs fs2 (a_applied st) [])
+           (snd (apply_series cfg db st n rest fs))
+           (snd (apply_series cfg db {| a_applied := []; a_files := [] |} n rest fs2)).
+Proof. exact first_then_second_from_scratch. Qed.
+Print Assumptions C09_first_then_second_from_scratch.
+
+(* the premises are met by a concrete split: the first invocation applies one patch to f, the second continues *)
+Definition c09s_p1 := b ("--- a/f" ++ nl ++ "+++ b/f" ++ nl ++ "@@ -2 +2 @@" ++ nl ++ "-b" ++ nl ++ "+B" ++ nl)%string.
+Definition c09s_p2 := b ("--- a/f" ++ nl ++ "+++ b/f" ++ nl ++ "@@ -1 +1 @@" ++ nl ++ "-a" ++ nl ++ "+A" ++ nl)%string.
+Definition c09s_fs : fsys :=
+  {| fs_files := [([b "f"], {| f_data := b ("a" ++ nl ++ "b" ++ nl)%string; f_mode := 420 |})];
+     fs_dirs := []; fs_log := []; fs_fault := None; fs_fired := false |}.
+Definition c09s_db : patches_db := [(b "p1", c09s_p1); (b "p2", c09s_p2)].
+Definition c09s_first := [ {| sp_name := b "p1"; sp_strip := 1; sp_reverse := false |} ].
+Definition c09s_rest := [ {| sp_name := b "p2"; sp_strip := 1; sp_reverse := false |} ].
+Definition c09s_empty : astate := {| a_applied := []; a_files := [] |}.
+Definition c09s_run := apply_series c09_cfg c09s_db c09s_empty 0 c09s_first c09s_fs.
+Definition c09s_st : astate := match snd c09s_run with ROk (st, _, _) => st | _ => c09s_empty end.
+Definition c09s_saved := save_all 420 (a_files c09s_st) [] c09s_fs.
+Definition c09s_cl : list npath := match snd c09s_saved with ROk cl => cl | _ => [] end.
+Definition c09s_K (k : bytes) : Prop := k = b "f".
+
+Example C09_from_scratch_premises_met :
+  disk_ok c09s_fs /\ no_file_dir c09s_fs /\
+  c09s_run = (c09s_fs, ROk (c09s_st, 1%nat, [])) /\
+  series_sizes c09_cfg c09s_db c09s_fs c09s_empty 0 c09s_first /\
+  c09s_saved = (fst c09s_saved, ROk c09s_cl) /\
+  Forall (fun e => kpath e <> []) (a_files c09s_st) /\ keys_indep (a_files c09s_st) /\ Forall lines_ok (a_files c09s_st) /\
+  (forall k, okkey c09s_K k -> ov_get k (a_files c09s_st) = None ->
+             Forall (fun e => indep (normalize k) (kpath e)) (a_files c09s_st)) /\
+  series_in c09s_K c09s_db c09s_rest.
+Proof.
+  split.
+  { intros k f H. unfold fs_read in H. destruct (normalize k) as [|c r]; [discriminate|].
+    destruct (existsb _ _); [discriminate|]. cbn [c09s_fs fs_files lookup_file] in H.
+    destruct (npath_eqb (c :: r) [b "f"]); [injection H as <-; vm_compute; reflexivity|].
+    destruct (is_dir _ _); discriminate. }
+  split; [intros p Hfile; destruct p as [|c r]; [vm_compute in Hfile; discriminate Hfile|reflexivity]|].
+  split; [vm_compute; reflexivity|].
+  split; [apply series_sizesb_ok; vm_compute; reflexivity|].
+  split; [vm_compute; reflexivity|].
+  assert (Hov : a_files c09s_st = [(b "f", {| content := split_lines (b ("a" ++ nl ++ "B" ++ nl)%string);
+                                              existed := true; deleted := false; perm := Some 33188%N |})])
+    by (vm_compute; reflexivity).
+  rewrite Hov.
+  split; [constructor; [vm_compute; discriminate|constructor]|].
+  split; [split; [constructor|exact I]|].
+  split; [constructor; [|constructor]; apply split_lines_wf|].
+  split.
+  { intros k [-> _] Hn. vm_compute in Hn. discriminate Hn. }
+  intros sp data p [<-|[]] Hdb Hp. vm_compute in Hdb. injection Hdb as <-.
+  cbn [sp_strip] in Hp. vm_compute in Hp. injection Hp as <-. cbn [pp_fps].
+  constructor; [|constructor]. split; intros x Hx; vm_compute in Hx; injection Hx as <-; reflexivity.
+Qed.
+
+(* REFUTED for one more class (known finding empty-directory-kept): a directory that is there and empty when the push
+   starts, in which the series creates a file and later deletes it again.  One push never writes the file, so nothing
+   prompts it to look at the directory, which stays; split pushes write the file, delete it, and remove the directory
+   that became empty.  (The theorems above speak of what names READ as - lines, existence, mode of files -, which is
+   the same in both cases; the difference is an empty directory.) *)
+Definition c09e_p1 := b ("--- /dev/null" ++ nl ++ "+++ b/d/x" ++ nl ++ "@@ -0,0 +1 @@" ++ nl ++ "+hello" ++ nl)%string.
+Definition c09e_p2 := b ("--- a/d/x" ++ nl ++ "+++ /dev/null" ++ nl ++ "@@ -1 +0,0 @@" ++ nl ++ "-hello" ++ nl)%string.
+Definition c09e_fs : fsys :=
+  {| fs_files := [([b "series"], {| f_data := b ("p1" ++ nl ++ "p2" ++ nl)%string; f_mode := 420 |})];
+     fs_dirs := [[b "d"]]; fs_log := []; fs_fault := None; fs_fired := false |}.
+Definition c09e_db : patches_db := [(b "p1", c09e_p1); (b "p2", c09e_p2)].
+Definition c09e_one_push := cmd_push c09_cfg c09e_db GAll c09e_fs.
+Definition c09e_two_pushes := let '(fs1, _) := cmd_push c09_cfg c09e_db (GCount 1) c09e_fs in cmd_push c09_cfg c09e_db GAll fs1.
+Example C09_refuted_empty_directory :
+  snd c09e_one_push = ROk true /\ snd c09e_two_pushes = ROk true /\
+  is_dir (fst c09e_one_push) [b "d"] = true /\ is_dir (fst c09e_two_pushes) [b "d"] = false /\
+  List.map fst (fs_files (fst c09e_one_push)) = List.map fst (fs_files (fst c09e_two_pushes)).
+Proof. vm_compute. repeat split; reflexivity. Qed.
